@@ -23,7 +23,7 @@ Definition is_panic {A} (x : routcome A) : bool := match x with RPanic _ => true
 Definition nlen {A} (l : list A) : N := N.of_nat (length l).
 
 (* panic site numbers (notes/C11-panic-sites.json refers to them) *)
-Definition P_SUB_UNDERFLOW : N := 1.   (* plan.rs: definite_path_len - 1 *)
+Definition P_SUB_UNDERFLOW : N := 1.   (* usize subtraction below zero (historically plan.rs: definite_path_len - 1) *)
 Definition P_INDEX : N := 2.           (* v[i] out of range *)
 Definition P_UNWRAP_NONE : N := 3.     (* Option::unwrap on None *)
 Definition P_PARENT_INDEX : N := 4.    (* iter/tree.rs: self.stack[idx] *)
@@ -120,11 +120,14 @@ Definition thr_wf {A} (MAX : N) (t : thr A) : Prop :=
   1 <= t_k t /\ t_k t <= nlen (t_inner t) /\ (MAX = 0 \/ nlen (t_inner t) <= MAX).
 
 (* ================================================================== plan.rs *)
-(* fn is_key_direct_child_of(pk, derivation_path) -> bool {
+(* The code as written (after /repo 540253fb):
+   fn is_key_direct_child_of(pk, derivation_path) -> bool {
      for pk_derivation_path in pk.full_derivation_paths() {
          if &pk_derivation_path == derivation_path { return true; }
-         let definite_path_len = pk_derivation_path.len();
-         if derivation_path.as_ref() == &pk_derivation_path[..(definite_path_len - 1)] { return true; }
+         // An empty path (a key without origin or derivation steps) has no parent.
+         if let Some((_last, parent)) = pk_derivation_path.as_ref().split_last() {
+             if derivation_path.as_ref() == parent { return true; }
+         }
      }
      false } *)
 Definition dpath := list N.   (* child numbers *)
@@ -135,14 +138,19 @@ Fixpoint dpath_eqb (a b : dpath) : bool :=
   | _, _ => false
   end.
 
+(* <[T]>::split_last: None on an empty slice, otherwise (last, everything before it) *)
+Definition split_last_parent (p : dpath) : option dpath :=
+  match p with [] => None | _ => Some (removelast p) end.
+
 Fixpoint child_of (pk_paths : list dpath) (dp : dpath) : routcome bool :=
   match pk_paths with
   | [] => ROk false
   | p :: rest =>
     if dpath_eqb p dp then ROk true
-    else rbind (sub_partial (nlen p) 1) (fun m =>
-         rbind (slice_to p m) (fun pre =>
-         if dpath_eqb dp pre then ROk true else child_of rest dp))
+    else match split_last_parent p with
+         | Some parent => if dpath_eqb dp parent then ROk true else child_of rest dp
+         | None => child_of rest dp
+         end
   end.
 
 (* Assets::has_ecdsa_key: keys.iter().any(|(keysource, can_sign)| can_sign.ecdsa &&
@@ -157,23 +165,23 @@ Fixpoint has_ecdsa_key (keys : list asset_key) (pk_fp : N) (pk_paths : list dpat
     else has_ecdsa_key rest pk_fp pk_paths
   end.
 
-(* the candidate repair (notes/fixes/C11-plan-empty-path.diff): an empty path has no parent *)
-Fixpoint child_of_fixed (pk_paths : list dpath) (dp : dpath) : routcome bool :=
+(* what the doc comment promises: equal, or equal to the path minus its last step *)
+Definition child_of_spec (pk_paths : list dpath) (dp : dpath) : Prop :=
+  exists p, In p pk_paths /\ (p = dp \/ (p <> [] /\ removelast p = dp)).
+
+(* HISTORY (DESIGN 10-f, fixed by /repo 540253fb): the code before the repair computed
+   `&pk_derivation_path[..(len - 1)]`, which underflows on an empty path.  Kept only so that
+   the tie can NAME a regression to that behaviour (Tables/RobustCasesCheck.v) and for the
+   statement that the repair changed nothing else (planner_repair_conservative). *)
+Fixpoint child_of_before_540253fb (pk_paths : list dpath) (dp : dpath) : routcome bool :=
   match pk_paths with
   | [] => ROk false
   | p :: rest =>
     if dpath_eqb p dp then ROk true
-    else match p with
-         | [] => child_of_fixed rest dp
-         | _ => rbind (sub_partial (nlen p) 1) (fun m =>
-                rbind (slice_to p m) (fun pre =>
-                if dpath_eqb dp pre then ROk true else child_of_fixed rest dp))
-         end
+    else rbind (sub_partial (nlen p) 1) (fun m =>
+         rbind (slice_to p m) (fun pre =>
+         if dpath_eqb dp pre then ROk true else child_of_before_540253fb rest dp))
   end.
-
-(* what the doc comment promises: equal, or equal to the path minus its last step *)
-Definition child_of_spec (pk_paths : list dpath) (dp : dpath) : Prop :=
-  exists p, In p pk_paths /\ (p = dp \/ (p <> [] /\ removelast p = dp)).
 
 (* ================================================================== script byte cursor *)
 (* rust-bitcoin 0.32 blockdata/script/instruction.rs (Instructions with enforce_minimal = true,
